@@ -49,6 +49,9 @@ impl<'a> Recorder<'a> {
     /// Note the case about to run (isolation: lets the parent attribute an abort or a hang).
     pub fn about_to_run(&self, case: &dyn Fn() -> serde_json::Value) {
         if let Some(p) = &self.cur_path {
+            let hint = p.with_extension("hint");
+            let _ = std::fs::remove_file(&hint);
+            set_hint_path(Some(hint));
             let _ = std::fs::write(p, serde_json::to_vec(&case()).unwrap_or_default());
             // 0-based index of the case about to run (restart bookkeeping)
             let _ = std::fs::write(p.with_extension("idx"), self.res.started.saturating_sub(1).to_string());
@@ -232,6 +235,8 @@ pub fn run_prop_shard<C: Case>(strategy: &dyn Fn(Tier) -> BoxedStrategy<C>, chec
     let failed = Cell::new(false);
     // after an attributed abort/hang the orchestrator restarts the shard behind the offending case
     let skip: u64 = std::env::var("NV_SKIP_CASES").ok().and_then(|s| s.parse().ok()).unwrap_or(0);
+    // "<case index>:<inner index>": resume that case behind the given inner evaluation
+    let inner: Option<(u64, u64)> = std::env::var("NV_SKIP_INNER").ok().and_then(|s| s.split_once(':').and_then(|(a, b)| Some((a.parse().ok()?, b.parse().ok()?))));
     let started = Cell::new(0u64);
     let result = runner.run(&strat, |case: C| {
         if !failed.get() {
@@ -241,6 +246,10 @@ pub fn run_prop_shard<C: Case>(strategy: &dyn Fn(Tier) -> BoxedStrategy<C>, chec
             if idx < skip {
                 return Ok(());
             }
+            set_inner_skip(match inner {
+                Some((c, h)) if c == idx => Some(h),
+                _ => None,
+            });
         }
         let to_json = || serde_json::to_value(&case).unwrap_or(serde_json::Value::Null);
         rec.borrow().about_to_run(&to_json);
